@@ -26,6 +26,7 @@ UNIT = Unit(
     items=[
         TypeItem(S, "struct", "StakeSet", subst=[("stakes:", "pub stakes:")]),
         Raw("impl View for StakeSet { type V = Map<TxHash, StakeDoc>; open spec fn view(&self) -> Map<TxHash, StakeDoc> { self.stakes@ } }"),
+        Fn(S, "new", impl="StakeSet", home="C13", implicit_props=("C09", "C13"), sig_subst=[("impl Iterator<Item = (TxHash, StakeDoc)>", "Vec<(TxHash, StakeDoc)>")], **ss_new()),
         Fn(S, "add_stake", impl="StakeSet", home="C13", implicit_props=("C09", "C13"), **ss_add_stake()),
         Fn(S, "get_stake", impl="StakeSet", home="C13", implicit_props=("C09", "C13"), **ss_get_stake()),
         Fn(S, "unlock_old", impl="StakeSet", home="C13", implicit_props=("C09", "C13"), **ss_unlock_old(),
